@@ -268,7 +268,7 @@ def model_outputs(ops):
     return p.stdout.decode("utf-8", "replace").splitlines(), ""
 
 
-def analyse(res, name, out, findings, model=True):
+def analyse(res, name, out, findings, model=True, oracle_prefixes=()):
     """Split harness output, run the model on the op lines, diff, collect PROP-FAILs."""
     ops, impl, case_of = [], [], []
     case = None
@@ -318,6 +318,26 @@ def analyse(res, name, out, findings, model=True):
             for i in range(n):
                 if mo[i] != impl[i]:
                     res.corr_mismatch += 1
+                    if any(ops[i].startswith(pfx) for pfx in oracle_prefixes):
+                        # the model's answer IS the property oracle here (e.g. the independent
+                        # specification decoder run on bytes the real writer produced): the op
+                        # line itself is a concrete failing input.
+                        sig = "spec-decoder-mismatch"
+                        if mo[i].startswith("ERR"):
+                            sig = "spec-decoder-rejects:" + mo[i].split(" ")[1].split("|")[0]
+                        elif mo[i].startswith("OK dv=") and not mo[i].startswith("OK dv=0|"):
+                            sig = "dict-ref-missing"
+                        kf = findings.match(res.prop, sig)
+                        if kf is not None:
+                            if sig not in [s for s, _ in res.known]:
+                                res.known.append((sig, kf))
+                        else:
+                            res.violation("impl-violation", sig,
+                                          "case %s: independent decoder disagrees with the records written: model=%s | expected=%s" %
+                                          (case_of[i], mo[i][:300], impl[i][:300]),
+                                          {"signature": sig, "case": case_of[i], "op": ops[i][:200000],
+                                           "expected": impl[i][:20000], "model": mo[i][:20000]})
+                        continue
                     if first is None:
                         first = i
             if first is not None:
